@@ -215,6 +215,9 @@ class SLE(Equilibrium, phases='ls'):
         if T_given: thermal_condition.T = T
         else: T = thermal_condition.T
         if solubility is not None:
+            imol = self._imol
+            self._liquid_mol = imol['l']
+            self._solid_mol = imol['s']
             solute_index = self._solute_index
             self._mol_solute = (
                 self._solid_mol[solute_index] + self._liquid_mol[solute_index]
